@@ -268,7 +268,7 @@ Proof.
   unfold ref_step. rewrite Ea in *. clear Ea.
   destruct (Z.ltb_spec (- rate s) (Mx - token)) as [Hok|Hno];
     destruct (Z.leb_spec whole (ref_level n x rb)) as [Hrok|Hrno]; cbn [fst snd b2z] in *.
-  - (* both admit *)
+  - (* both let it through *)
     apply andb_true_intro. split; [lia|].
     apply (IH _ _ _ x); try assumption; try reflexivity; rewrite ?Etake;
       cbn [take rate burst last rb_tokens rb_last]; try lia.
